@@ -286,6 +286,26 @@ class OpsMixin:
             self.violate("C09.raises", f"constructor accepted pool_size={v}")
 
     # ------------------------------------------------------------ pool_size
+    def op_grow_size(self, step, issuer):
+        """Reconfigure a pool in which no task is in flight to a larger size (C01: the size is fixed while tasks are in flight)."""
+        pr = self.pools[step["pool"]]
+        self.refresh_created(pr)
+        if pr.A or pr.L or pr.cb_in_progress or pr.size is None or pr.closed or pr.size_changed:
+            return
+        for k in range(2 if step.get("twice") else 1):
+            new = None if step["by"] is None else pr.size + step["by"] + k
+            self.ev("op_call", "grow_size", pr.idx, new)
+            try:
+                pr.obj.pool_size = float("inf") if new is None else new
+            except Exception as e:  # noqa: BLE001
+                self.violate("C15.negative", f"pool_size = {new} raised {type(e).__name__}")
+                return
+            pr.size = new
+            self.sit["C01.reconfigured_empty_pool" + (".waiting" if self.pending_work(pr) else "")] += 1
+            if new is None:
+                break
+        self.note_op("grow_size", "waiting" if self.pending_work(pr) else "idle")
+
     def op_set_size(self, step, issuer):
         pr = self.pools[step["pool"]]
         v = step["v"]
